@@ -558,6 +558,21 @@ fn same_dyn(a: &DynamicTypeInfo, b: &DynamicTypeInfo) -> bool {
     a.info == b.info && a.allow_uninit == b.allow_uninit
 }
 
+/// The table of a platform whose machine word has `word` bytes (figures that are not the host's).
+pub fn foreign_map(word: usize) -> BTreeMap<String, DynamicTypeInfo> {
+    let mut map = BTreeMap::new();
+    let mut put = |name: &str, size: usize, align: usize, uninit: bool| {
+        map.insert(name.to_string(), DynamicTypeInfo { info: TypeInfo { name: name.to_string(), size, align }, allow_uninit: uninit });
+    };
+    put(&HostTypeResolver.type_info::<usize>().name, word, word, true);
+    put(&HostTypeResolver.type_info::<u64>().name, 8, word.min(8), true);
+    put(&HostTypeResolver.type_info::<u32>().name, 4, word.min(4), true);
+    put(&HostTypeResolver.type_info::<String>().name, 3 * word, word, false);
+    put(&HostTypeResolver.type_info::<Vec<()>>().name, 3 * word, word, false);
+    put(&HostTypeResolver.type_info::<Box<str>>().name, 2 * word, word, false);
+    map
+}
+
 fn check_table(case: &TableCase) -> Result<CaseInfo, Failure> {
     let mut custom: Vec<usize> = Vec::new();
     for c in &case.custom {
@@ -741,19 +756,6 @@ fn check_table(case: &TableCase) -> Result<CaseInfo, Failure> {
     }
     // a table made on another platform (figures that are not the host's), loaded from its map
     {
-        fn foreign_map(word: usize) -> BTreeMap<String, DynamicTypeInfo> {
-            let mut map = BTreeMap::new();
-            let mut put = |name: &str, size: usize, align: usize, uninit: bool| {
-                map.insert(name.to_string(), DynamicTypeInfo { info: TypeInfo { name: name.to_string(), size, align }, allow_uninit: uninit });
-            };
-            put(&HostTypeResolver.type_info::<usize>().name, word, word, true);
-            put(&HostTypeResolver.type_info::<u64>().name, 8, word.min(8), true);
-            put(&HostTypeResolver.type_info::<u32>().name, 4, word.min(4), true);
-            put(&HostTypeResolver.type_info::<String>().name, 3 * word, word, false);
-            put(&HostTypeResolver.type_info::<Vec<()>>().name, 3 * word, word, false);
-            put(&HostTypeResolver.type_info::<Box<str>>().name, 2 * word, word, false);
-            map
-        }
         let answers = |t: &StaticTypeResolver| -> Result<Vec<TypeInfo>, Failure> {
             catch_unwind(AssertUnwindSafe(|| {
                 vec![t.type_info::<usize>(), t.type_info::<u64>(), t.type_info::<u32>(), t.type_info::<String>(), t.type_info::<Vec<()>>(), t.type_info::<Box<str>>()]
